@@ -21,12 +21,23 @@ FLAGS_c20 = -Iharness/mpishim -fsanitize=address,undefined -fno-sanitize-recover
 FLAGS_c15 = -fsanitize=address,undefined -fno-sanitize-recover=undefined -D_GLIBCXX_ASSERTIONS
 FLAGS_c17 = -fsanitize=address,undefined -fno-sanitize-recover=undefined -D_GLIBCXX_ASSERTIONS
 
-EXISTING = $(foreach c,$(CHECKS),$(if $(wildcard checks/$(c).cpp),$(B)/$(c)))
+# checks built as three parts
+PARTED  = c05 c10
+EXISTING = $(foreach c,$(filter-out $(PARTED),$(CHECKS)),$(if $(wildcard checks/$(c).cpp),$(B)/$(c))) \
+           $(foreach c,$(PARTED),$(if $(wildcard checks/$(c).cpp),$(B)/$(c).p0 $(B)/$(c).p1 $(B)/$(c).p2))
 
 all: $(EXISTING)
 
 $(B)/%: checks/%.cpp | $(B)
 	$(CXX) $(BASEFLAGS) $(OPT) $(FLAGS_$*) -MF $(B)/$*.d -MT $@ -o $@ $< $(LIBS_$*)
+
+# checks split into parts (one numeric type each) so that they compile in parallel
+$(B)/%.p0: checks/%.cpp | $(B)
+	$(CXX) $(BASEFLAGS) $(OPT) $(FLAGS_$*) -DVF_PART=0 -MF $(B)/$*.p0.d -MT $@ -o $@ $< $(LIBS_$*)
+$(B)/%.p1: checks/%.cpp | $(B)
+	$(CXX) $(BASEFLAGS) $(OPT) $(FLAGS_$*) -DVF_PART=1 -MF $(B)/$*.p1.d -MT $@ -o $@ $< $(LIBS_$*)
+$(B)/%.p2: checks/%.cpp | $(B)
+	$(CXX) $(BASEFLAGS) $(OPT) $(FLAGS_$*) -DVF_PART=2 -MF $(B)/$*.p2.d -MT $@ -o $@ $< $(LIBS_$*)
 
 $(B):
 	mkdir -p $(B) $(B)/out
